@@ -26,9 +26,14 @@ class V:
     count: int = 1
     rule: str | None = None  # rule prefix expected among the new failures (fire variants)
     edits: tuple = ()        # further (file, old, new) edits applied together
+    patch: str | None = None # path of a unified diff applied instead of the textual edits (seeded changes under /verif/seeded)
 
 
 def _apply(root, v: V):
+    if v.patch:
+        import subprocess
+        p = subprocess.run(["git", "apply", os.path.abspath(v.patch)], cwd=root, capture_output=True)
+        return p.returncode == 0
     edits = [(v.file, v.old, v.new, v.count)] + [(e[0], e[1], e[2], e[3] if len(e) > 3 else 1) for e in v.edits]
     for file, old, new, count in edits:
         path = os.path.join(root, file)
@@ -98,8 +103,26 @@ def evaluate(prop, variants, base_keys, seed=0, src_root=None, jobs=None):
     return results
 
 
+def seeded_variants(prop):
+    """Independent seeded changes kept under /verif/seeded/<name>/ (patch.diff + meta.json naming the property they break)."""
+    import json
+    base = os.path.join(os.path.dirname(os.path.dirname(os.path.abspath(__file__))), "seeded")
+    out = []
+    if os.path.isdir(base):
+        for name in sorted(os.listdir(base)):
+            d = os.path.join(base, name)
+            meta, patch = os.path.join(d, "meta.json"), os.path.join(d, "patch.diff")
+            if os.path.isfile(meta) and os.path.isfile(patch):
+                try:
+                    if json.load(open(meta)).get("property") == prop:
+                        out.append(V("seeded:" + name, "", "", "", expect="fire", patch=patch))
+                except Exception:
+                    pass
+    return out
+
+
 def run_selftest(r):
-    variants = getattr(r.mod, "VARIANTS", None)
+    variants = list(getattr(r.mod, "VARIANTS", None) or []) + seeded_variants(r.rep.prop)
     if not variants:
         r.rep.selftest = {"variants": 0, "note": "no self-test catalogue for this property"}
         return
@@ -123,7 +146,7 @@ def main(argv):
     import importlib
     prop = argv[0]
     mod = importlib.import_module(f"prsa.props.{prop}")
-    variants = [v for v in getattr(mod, "VARIANTS", []) if len(argv) < 2 or argv[1] in v.name]
+    variants = [v for v in list(getattr(mod, "VARIANTS", [])) + seeded_variants(prop) if len(argv) < 2 or argv[1] in v.name]
     from .__main__ import run_property
     try:
         _, rep = run_property(prop, "quick", 0, write_evidence=False, quiet=True, selftest=False)
